@@ -248,7 +248,7 @@ VALS = [0, -10, -20, 15, 7, 12.5, -12.5, 2.5, -7.5, 33, -50, 100.5, 4, -4]
 
 
 def gen_family(rng, mode="normal", allow_diamond=False, naxes=None, exact=True, multi=False, allow_nogpos=False, func=False,
-               allow_frac=False):
+               allow_frac=False, own_groups=False):
     """a compatible family: 2-5 full masters on 1-2 axes (+ optionally a sparse layer master), per-master kerning and anchors"""
     naxes = naxes or (2 if multi else rng.choice([1, 1, 1, 2]))
     axes = [gen_axis(rng, "Weight", "wght", rng.random() < 0.4)]
@@ -314,10 +314,20 @@ def gen_family(rng, mode="normal", allow_diamond=False, naxes=None, exact=True, 
     # the kern writer only knows marks through public.openTypeCategories (or a GDEF block); without them marks stay out of kerning
     categories = bool(marks) and rng.random() < 0.7
     kern_names = names if categories or not marks else [g for g in names if g not in marks]
-    # groups: the same in every master (UFO kerning semantics of a master = that master's own kerning + groups)
+    # groups: the COMMON groups are the same in every master (UFO kerning semantics of a master = that master's own kerning +
+    # groups).  own_groups: some full masters - as a rule not the default - additionally define groups of their own (glyphs that
+    # are in no common group of that side) together with class pairs / exceptions that use them: "a pair, with its groups,
+    # present in one master only".  A master that does not define such a group has no kerning key naming it.
     groups = {}
     pool1 = [g for g in kern_names if rng.random() < 0.75]
     pool2 = [g for g in kern_names if rng.random() < 0.75]
+    extra = {}
+    if own_groups:
+        for pfx, pl in (("public.kern1.", pool1), ("public.kern2.", pool2)):
+            res = rng.sample(kern_names, min(len(kern_names), rng.choice([1, 2, 2, 3])))
+            pl[:] = [g for g in pl if g not in res]
+            if rng.random() < 0.85 or not extra:
+                extra[pfx + "Own"] = res
     for pfx, pool in (("public.kern1.", pool1), ("public.kern2.", pool2)):
         rng.shuffle(pool)
         k = 0
@@ -329,6 +339,40 @@ def gen_family(rng, mode="normal", allow_diamond=False, naxes=None, exact=True, 
     if rng.random() < 0.1:
         groups["public.kern1.Empty"] = ["missing.glyph"]
     pool = gen_kern_pool(rng, kern_names, groups)
+    ugroups = dict(groups)
+    ugroups.update(extra)
+    extra_pool = []
+    if extra:
+        x1 = [g for g in extra if g.startswith("public.kern1.")]
+        x2 = [g for g in extra if g.startswith("public.kern2.")]
+        g1s = [g for g in ugroups if g.startswith("public.kern1.")]
+        g2s = [g for g in ugroups if g.startswith("public.kern2.")]
+        for a in x1:
+            for b in rng.sample(g2s + kern_names, min(len(g2s + kern_names), rng.choice([1, 2, 3]))) + x2:
+                if [a, b] not in extra_pool:
+                    extra_pool.append([a, b])
+        for b in x2:
+            for a in rng.sample(g1s + kern_names, min(len(g1s + kern_names), rng.choice([1, 2, 3]))):
+                if [a, b] not in extra_pool:
+                    extra_pool.append([a, b])
+        # exceptions under the pairs that use an own group
+        for a, b in list(extra_pool):
+            m1 = [m for m in ugroups.get(a, [a]) if m in kern_names]
+            m2 = [m for m in ugroups.get(b, [b]) if m in kern_names]
+            if not m1 or not m2:
+                continue
+            for cand in ([rng.choice(m1), b], [a, rng.choice(m2)], [rng.choice(m1), rng.choice(m2)]):
+                if cand not in extra_pool and cand not in pool and rng.random() < 0.35:
+                    (extra_pool if (cand[0] in extra or cand[1] in extra) else pool).append(cand)
+    # which masters define the own groups: never all; the default only rarely
+    has_extra = [bool(extra) and (rng.random() < (0.15 if l == dflt else 0.75)) for l in locs]
+    if extra:
+        nd = [i for i, l in enumerate(locs) if l != dflt]
+        if not any(has_extra[i] for i in nd):
+            has_extra[rng.choice(nd)] = True
+        if all(has_extra):
+            has_extra[locs.index(dflt)] = False
+    groups_of = [dict(ugroups) if has_extra[i] else dict(groups) for i in range(len(locs))]
 
     base_shape = {}
     for g in names:
@@ -369,8 +413,12 @@ def gen_family(rng, mode="normal", allow_diamond=False, naxes=None, exact=True, 
         for s1, s2 in pool:
             if rng.random() < (0.6 if mode == "normal" else 0.45):
                 kern.append([s1, s2, rng.choice(VALS)])
+        if has_extra[i]:
+            for s1, s2 in extra_pool:
+                if rng.random() < 0.7:
+                    kern.append([s1, s2, rng.choice(VALS[1:] if (s1 in extra and s2 in extra) else VALS)])
         kernings.append(kern)
-        fonts.append({"glyphs": glyphs, "kerning": kern, "groups": {k: list(v) for k, v in groups.items()},
+        fonts.append({"glyphs": glyphs, "kerning": kern, "groups": {k: list(v) for k, v in groups_of[i].items()},
                       "info": {"familyName": "Fam", "styleName": "M%d" % i, "unitsPerEm": 1000, "ascender": 800, "descender": -200,
                                "xHeight": 500, "capHeight": 700},
                       "lib": ({"public.openTypeCategories": {g: ("mark" if g in marks else "base") for g in names}} if categories else {})})
@@ -386,14 +434,16 @@ def gen_family(rng, mode="normal", allow_diamond=False, naxes=None, exact=True, 
         for _ in range(80):
             todo = None
             for sub in subsets:
-                dp = diamond_pairs(groups, [kernings[i] for i in sub], names)
+                dp = diamond_pairs(ugroups, [kernings[i] for i in sub], names)
                 if dp:
                     todo = (dp[0][0], dp[0][1], sub[dp[0][2]])
                     break
             if todo is None:
                 return
             g1, g2, i = todo
-            kernings[i].append([g1, _grp(groups, "public.kern2.", g2), rng.choice(VALS[1:])])
+            G2 = _grp(ugroups, "public.kern2.", g2)
+            # a master that does not define G2 gets the glyph pair itself instead (it must not name a group it lacks)
+            kernings[i].append([g1, G2 if G2 in groups_of[i] else g2, rng.choice(VALS[1:])])
     if not allow_diamond:
         repair()
     nogpos = False
@@ -408,12 +458,12 @@ def gen_family(rng, mode="normal", allow_diamond=False, naxes=None, exact=True, 
     if not nogpos and (rng.random() < 0.8 or fea_mode == "extra-class"):
         equalised = True
         allk = set()
-        for k in kernings:
-            allk |= layout_kinds(k, groups, names, marks, categories)
+        for i, k in enumerate(kernings):
+            allk |= layout_kinds(k, groups_of[i], names, marks, categories)
         bs = [g for g in kern_names if g not in marks]
         ms = [g for g in kern_names if g in marks]
-        for k in kernings:
-            for kind in sorted(allk - layout_kinds(k, groups, names, marks, categories)):
+        for i, k in enumerate(kernings):
+            for kind in sorted(allk - layout_kinds(k, groups_of[i], names, marks, categories)):
                 if kind == "bb":
                     k.append([rng.choice(bs), rng.choice(bs), rng.choice(VALS[1:])])
                 elif kind == "bm":
@@ -446,7 +496,7 @@ def gen_family(rng, mode="normal", allow_diamond=False, naxes=None, exact=True, 
         fd["features"] = t
     if fea_mode == "extra-class" and len({fd.get("features") for fd in fonts}) == 1:
         fonts[[i for i in range(nm) if locs[i] != dflt][0]]["features"] = base_fea + "@unusedX = [%s];\n" % names[0]
-    kind_sets = [layout_kinds(k, groups, names, marks, categories) for k in kernings]
+    kind_sets = [layout_kinds(k, groups_of[i], names, marks, categories) for i, k in enumerate(kernings)]
     merge_ok = all(ks == kind_sets[0] for ks in kind_sets)
     sources = [{"name": "m%d" % i, "font": i, "layer": None, "loc": locs[i]} for i in range(nm)]
     if sparse_inter:
@@ -479,7 +529,14 @@ def gen_family(rng, mode="normal", allow_diamond=False, naxes=None, exact=True, 
             vfs.reverse()
     return {"axes": axes, "fonts": fonts, "sources": sources, "vfs": vfs, "lib": rng.choice(["ufoLib2", "ufoLib2", "defcon"]),
             "names": names, "marks": marks, "markAnchor": mark_anchor, "anchorNames": anchor_names, "exact": exact, "categories": categories,
-            "scaled": scale_mode if scaled else None, "mergeOK": merge_ok, "feaMode": fea_mode, "diamonds": bool(allow_diamond and any(diamond_pairs(groups, [kernings[i] for i in sub], names) for sub in subsets)), "nogpos": nogpos}
+            "scaled": scale_mode if scaled else None, "mergeOK": merge_ok, "feaMode": fea_mode, "diamonds": bool(allow_diamond and any(diamond_pairs(ugroups, [kernings[i] for i in sub], names) for sub in subsets)), "nogpos": nogpos,
+            "ownGroups": bool(extra)}
+
+
+def groups_differ(fam):
+    """some full sources of the family do not carry the same kerning groups"""
+    gs = [_canon(fam["fonts"][s["font"]]["groups"]) for s in fam["sources"] if s["layer"] is None]
+    return len(set(gs)) > 1
 
 
 def merge_ok(fam):
@@ -493,7 +550,7 @@ def merge_ok(fam):
 def gen_func_family(rng, mode):
     """families for the function-level stream only (never compiled): also OUTSIDE the contract - two full sources at one location,
     no full source at the default location, sources whose groups differ or overlap"""
-    fam = gen_family(rng, mode, allow_diamond=True, exact=rng.random() < 0.5, allow_frac=True)
+    fam = gen_family(rng, mode, allow_diamond=True, exact=rng.random() < 0.5, allow_frac=True, own_groups=rng.random() < 0.3)
     ftags = []
     r = rng.random()
     full = [s for s in fam["sources"] if s["layer"] is None]
@@ -863,6 +920,7 @@ def func_requests(fam, q, tags):
                  (["partial-keys"] if partial else []) + (["exception-chain"] if chain else []) + (["sparse-source"] if sparse else []) +
                  (["var-values"] if any(isinstance(p[2], list) for p in ps) else []) +
                  (["collapsed-values"] if any(not isinstance(p[2], list) for p in ps) else []) +
+                 (["own-groups"] if groups_differ(fam) else []) +
                  (["invalid-keys"] if any(a not in names and a not in s1 or b not in names and b not in s2 for a, b in union) else [])})
     # --- variable anchors
     layers, queries = [], []
@@ -953,7 +1011,7 @@ def run_family(case):
     base_tags = [fmt, fam["lib"], "axes:%d" % len(fam["axes"]), "exact" if fam["exact"] else "fractional-scalars"] + \
         (["multi-vf"] if fam["vfs"] else []) + (["sparse-master"] if any(s["layer"] for s in fam["sources"]) else []) + \
         (["axis-map"] if any(a["map"] for a in fam["axes"]) else []) + (["categories"] if fam["categories"] else []) + \
-        (["scaled-component:%s" % fam["scaled"]] if fam.get("scaled") else [])
+        (["scaled-component:%s" % fam["scaled"]] if fam.get("scaled") else []) + (["own-groups"] if groups_differ(fam) else [])
     reqs = func_requests(fam, q, ["family-stream"])
     fam2 = copy.deepcopy(fam)
     if q != 1:
@@ -1028,6 +1086,7 @@ def run_family(case):
             var_in = {"axes": [a for a in _axes_in(fam) if any(x["name"] == a["name"] for x in vf_axes)],
                       "side1Classes": [[k, list(v)] for k, v in c1.items()], "side2Classes": [[k, list(v)] for k, v in c2.items()],
                       "glyphSet": names,
+                      "allGroups": [[k, list(v)] for x in vf_src for k, v in fam["fonts"][x["font"]]["groups"].items()],
                       "sources": [{"dloc": _dloc(x), "sparse": x["layer"] is not None,
                                    "kerning": [[a, b, rat(v)] for a, b, v in fam["fonts"][x["font"]]["kerning"]]} for x in vf_src],
                       "defaultDloc": [[k, rat(v)] for k, v in (dsrc.location if dsrc is not None else default_design_loc(fam)).items()],
@@ -1065,7 +1124,10 @@ def run_family(case):
                              "nontrivial": (partial and chain) or any(x["layer"] for x in vf_src),
                              "tags": tags + ["op:master", "err:%s" % (obs.get("err") and obs["err"].split(":")[0]), "tol:%d" % (0 if integral else 1)] +
                              (["master-lacks-keys"] if partial else []) + (["default-master"] if is_default(fam, s) else ["non-default-master"]) +
-                             (["kern-observed"] if obs.get("kern") else []) + (["marks-observed"] if obs.get("marks") else [])})
+                             (["kern-observed"] if obs.get("kern") else []) + (["marks-observed"] if obs.get("marks") else []) +
+                             (["master-has-group-default-lacks"] if dfd is not None and set(fd["groups"]) - set(dfd["groups"]) else []) +
+                             (["master-lacks-group-of-family"] if any(set(fam["fonts"][x["font"]]["groups"]) - set(fd["groups"])
+                                                                      for x in vf_src if x["layer"] is None) else [])})
     return reqs
 
 
